@@ -69,6 +69,24 @@ def install_c01(ctx, prop="C01"):
 
     AND = post_bin("and", lambda x, y: x and y)
     OR = post_bin("or", lambda x, y: x or y)
+
+    # operands must come out of an operator call exactly as they went in (no aliasing / mutation)
+    def snap(args, kwargs):
+        return tuple((iv.describe(x), _safe_str(x)) if iv.readable(x) else None for x in args[:2])
+
+    def unchanged(name):
+        def post(args, kwargs, r, token):
+            now = snap(args, kwargs)
+            if token is not None and now != token:
+                violation(prop, f"{name} (operands)", "an operator call changed one of its operands",
+                          {"before": token, "after": now, "group": "mutation"})
+        return post
+
+    for cls in (S.RangeSpecifier, S.UnionSpecifier):
+        for meth in ("__and__", "__or__", "__invert__"):
+            install(cls, meth, unchanged(f"{cls.__name__}.{meth}"), pre=snap, mon=f"immutable.{cls.__name__}.{meth}",
+                    aliases=(("__rand__",) if meth == "__and__" else ("__ror__",) if meth == "__or__" else ())
+                    if cls is S.UnionSpecifier else ())
     install(S.RangeSpecifier, "__and__", AND)
     install(S.RangeSpecifier, "__or__", OR)
     install(S.RangeSpecifier, "__invert__", post_inv)
@@ -107,6 +125,18 @@ def node_check_c01(ctx, t, value, child_values, prop="C01"):
         exp = tuple(not x for x in cv[0])
     ctx.evaluations += len(pts)
     monitor.bump("tree-node")
+    # the same operator call repeated on the same operand objects must give the same result (no hidden state)
+    try:
+        again = (child_values[0] & child_values[1]) if kind == "and" else (
+            (child_values[0] | child_values[1]) if kind == "or" else ~child_values[0])
+        if iv.describe(again) != iv.describe(value) or _safe_str(again) != _safe_str(value):
+            violation(prop, "tree-node", f"repeating the same {kind} call on the same objects gives a different result",
+                      {"op": kind, "operands": [iv.describe(c) for c in child_values], "first": iv.describe(value),
+                       "second": iv.describe(again), "first_text": _safe_str(value), "second_text": _safe_str(again),
+                       "group": "repeat"})
+    except Exception as e:  # noqa: BLE001
+        violation(prop, "tree-node", f"repeating the same {kind} call raised {type(e).__name__}",
+                  {"op": kind, "operands": [iv.describe(c) for c in child_values], "group": "repeat"})
     if vr != exp:
         violation(prop, "tree-node", f"{kind} node is not the exact set operation",
                   {"op": kind, "operands": [iv.describe(c) for c in child_values],
